@@ -130,7 +130,7 @@ def job_c16(clsname, width, seed=0):
                 for obj in ([mem.fget, mem.fset] if isinstance(mem, property) else [getattr(cls, spec["member"], None)]):
                     doc = (_i.getdoc(obj) or "").strip() if obj is not None else ""
                     first = doc.split("\n", 1)[0].strip()
-                    if first and "%" not in first and first not in text:
+                    if first and first not in text:
                         fails.append({"what": "the command's help does not carry the member's description",
                                       "cmd": cmd, "description": first, "got": text[:300]})
                 h = ctrlrun.parse_help(text)
@@ -362,6 +362,8 @@ def draw_line(rng, table):
         ])
         return " ".join(shape)
     if x < 0.66:     # help requests
+        if rng.random() < 0.3:      # the top-level help lists every command with its description
+            return rng.choice(["-h", "--help"])
         return rng.choice(cmds + [""]) + " " + rng.choice(["-h", "--help"])
     if x < 0.675:    # a reply far longer than one network read of the client (SESSION_MSG_BYTES)
         return rng.choice(["\\" * 51300, "cancel " + " ".join(["7"] * 30000) + " x"])
@@ -611,7 +613,7 @@ def jobs(pid, tier, seed):
     elif pid == "C18":
         n, cnt = (16, 60) if tier == "quick" else (96, 200)
         for k in range(n):
-            c = ["TaskPool", "SimpleTaskPool", "SubA", "SubB"][k % 4]
+            c = ["TaskPool", "SimpleTaskPool", "SubA", "SubB", "SubE", "TaskPool", "SimpleTaskPool", "SubD"][k % 8]
             js.append(("prop_ctrl", "job_c18", {"clsname": c, "seed": base + k, "count": cnt,
                                                 "two_sessions": k % 3 == 0}))
         for k in range(4 if tier == "quick" else 24):
